@@ -5,7 +5,8 @@ Pieces shared by the models of the audio "group" packetisers (rtpmpeg4audio, rtp
 * `packetCount`, `joinFragments` (identical private helpers in each Go package);
 * the batching loop of `Encoder.Encode` (identical control flow in the three packages, the
   per-format parts are the fields of `BatchOps`);
-* mediacommon `pkg/bits`: `ReadBits` / `WriteBitsUnsafe`, modelled bit-serially (MSB first).
+* mediacommon `pkg/bits`: `ReadBits` mirrored on byte values (`readBitsGo`, proved equal to the
+  bit-serial value `readBitsVal`), `WriteBitsUnsafe` modelled bit-serially (MSB first).
 
 Core Lean only.
 -/
@@ -66,11 +67,31 @@ def readBitsVal (buf : Bytes) : Nat → Nat → Nat → Nat
   | _, 0, acc => acc
   | pos, n + 1, acc => readBitsVal buf (pos + 1) n (2 * acc + getBit buf pos)
 
+/-- `buf[pos>>3]` -/
+def byteAt (buf : Bytes) (pos : Nat) : Nat := (buf.getD (pos / 8) 0).toNat
+
+/-- the `for n >= 8 { … }` loop of `ReadBitsUnsafe` and the `if n > 0 { … }` after it -/
+def readWhole (buf : Bytes) : Nat → Nat → Nat → Nat → Nat
+  | 0, _, _, v => v
+  | f + 1, pos, n, v =>
+    if n ≥ 8 then readWhole buf f (pos + 8) (n - 8) (v * 256 + byteAt buf pos)
+    else if n > 0 then v * 2 ^ n + byteAt buf pos / 2 ^ (8 - n)
+    else v
+
+/-- `bits.ReadBitsUnsafe(buf, &pos, n)`, statement by statement on byte values (without the
+`uint64` truncation, applied in `readBits`): the bits left in the current byte, whole bytes, the
+leading bits of the last byte.  `AudioBits.readBitsGo_eq` proves that this is the bit-serial value
+`readBitsVal`. -/
+def readBitsGo (buf : Bytes) (pos n : Nat) : Nat :=
+  let res := 8 - pos % 8
+  if n < res then byteAt buf pos / 2 ^ (res - n) % 2 ^ n
+  else readWhole buf (n + 1) (pos + res) (n - res) (byteAt buf pos % 2 ^ res)
+
 /-- `bits.ReadBits(buf, &pos, n)`: `HasSpace` then `ReadBitsUnsafe`; the Go accumulator is a
 `uint64`, hence the reduction modulo 2^64 (only visible for `n > 64`).  Returns value and new `pos`. -/
 def readBits (buf : Bytes) (pos n : Nat) : Option (Nat × Nat) :=
   if n > buf.length * 8 - pos then none
-  else some (readBitsVal buf pos n 0 % 2 ^ 64, pos + n)
+  else some (readBitsGo buf pos n % 2 ^ 64, pos + n)
 
 /-- the `n` low bits of `v`, most significant first (what `WriteBitsUnsafe(buf, &pos, v, n)` writes
 for `v < 2^n`; the Go function does not mask `v`, larger values are outside the valid frames) -/
